@@ -56,9 +56,22 @@ async fn verif_replay_hist_completion() {
         w.steps[0].acts.push(Act::block(Vars::new().with("mode", RunningMode::Parallel).with("acts", vec![Act::irq(|a| a.with_key("x")).with_id("x"), Act::irq(|a| a.with_key("y")).with_id("y")])).with_id("blk"));
         let w = w.with_step(|s| s.with_id("last").with_act(Act::irq(|a| a.with_key("z")).with_id("z")));
         shapes.push(("ERR step catch over a parallel block, one act failed", w));
+        // two inner blocks: the failed act's block has a sibling block with an open act of its own
+        let mut w = Workflow::new().with_step(|step| step.with_id("step1").with_catch(|c| c));
+        w.steps[0].acts.push(Act::block(Vars::new().with("mode", RunningMode::Parallel).with("acts", vec![
+            Act::block(Vars::new().with("mode", RunningMode::Parallel).with("acts", vec![Act::irq(|a| a.with_key("x")).with_id("x"), Act::irq(|a| a.with_key("y")).with_id("y")])).with_id("inner1"),
+            Act::block(Vars::new().with("mode", RunningMode::Parallel).with("acts", vec![Act::irq(|a| a.with_key("z")).with_id("z")])).with_id("inner2")])).with_id("outer"));
+        let w = w.with_step(|s| s.with_id("last").with_act(Act::irq(|a| a.with_key("q")).with_id("q")));
+        shapes.push(("ERR step catch over two nested parallel blocks, one act failed", w));
+        // the same with a failure that is not a client action: the script of one act of the block throws while the other act waits
+        let mut w = Workflow::new().with_step(|step| step.with_id("step1").with_catch(|c| c));
+        w.steps[0].acts.push(Act::block(Vars::new().with("mode", RunningMode::Parallel).with("acts", vec![Act::irq(|a| a.with_key("y")).with_id("y"), Act::code(r#"throw new Error("boom");"#).with_id("x")])).with_id("blk"));
+        let w = w.with_step(|s| s.with_id("last").with_act(Act::irq(|a| a.with_key("z")).with_id("z")));
+        shapes.push(("SCRIPT-ERR step catch over a parallel block, the script of one act throws", w));
     }
     for (name, wf) in shapes.into_iter() {
         let fail_first = name.starts_with("ERR");
+        let script_err = name.starts_with("SCRIPT-ERR");
         let mut workflow = wf;
         let pid = utils::longid();
         let (proc, rt, emitter, _tx, _rx) = create_proc_signal::<()>(&mut workflow, &pid);
@@ -96,7 +109,7 @@ async fn verif_replay_hist_completion() {
                 open = now;
             }
             check(&format!("after {rounds} answer(s)"), &mut bad);
-            if proc.state().is_completed() || open.is_empty() || rounds > 12 { break; }
+            if proc.state().is_completed() || open.is_empty() || rounds > 12 || script_err { break; }
             // answer ONE open act (the first by node id, so that runs are reproducible)
             open.sort_by(|a, b| a.node().id().cmp(b.node().id()));
             let t = open[0].clone();
@@ -108,7 +121,7 @@ async fn verif_replay_hist_completion() {
             }
             rounds += 1;
         }
-        if fail_first {
+        if fail_first || script_err {
             tokio::time::sleep(std::time::Duration::from_millis(400)).await;
             check("after the error and 400 ms", &mut bad);
             continue;
